@@ -15,6 +15,15 @@ import functools
 from harness.common import hx
 from harness import sim
 
+# import the implementation once in the parent process (the engine forks its workers):
+# a worker that has to import the whole package under load can exceed the per-case guard
+import proxy.http.handler            # noqa: E402,F401
+import proxy.http.proxy.server       # noqa: E402,F401
+import proxy.http.server.web         # noqa: E402,F401
+import proxy.http.proxy.auth         # noqa: E402,F401
+import proxy.core.connection         # noqa: E402,F401
+import proxy.common.flag             # noqa: E402,F401
+
 PROPERTY = 'C01'
 LEAN_TARGETS = ['PxProofs.C01']
 THEOREMS = [
@@ -662,7 +671,7 @@ def systematic(depth, menu=None, setup='tunnel', mx=2):
 
 def generate(rng, tier):
     big = tier == 'thorough'
-    for _ in range(4000 if not big else 30000):
+    for _ in range(2500 if not big else 20000):
         yield gen_flush_case(rng, big=False)
     for _ in range(12 if not big else 120):
         yield gen_flush_case(rng, big=True)
@@ -675,9 +684,9 @@ def generate(rng, tier):
             yield c
         for c in systematic(3, setup='http', mx=3):
             yield c
-    for _ in range(2500 if not big else 40000):
-        yield gen_relay_case(rng, 'tunnel')
     for _ in range(1500 if not big else 25000):
+        yield gen_relay_case(rng, 'tunnel')
+    for _ in range(1000 if not big else 15000):
         yield gen_relay_case(rng, 'http')
     for _ in range(6 if not big else 40):
         yield gen_relay_case(rng, 'tunnel', big=True)
